@@ -19,6 +19,8 @@ type genState struct {
 	big        bool
 	noOpenPush bool
 	lockstep   bool
+	queue      []string // labels that must come next
+	unacked    [2]int   // SETTINGS frames sent by each side and not yet acknowledged by the other
 }
 
 func (g *genState) pick(xs ...int) int { return xs[g.r.Intn(len(xs))] }
@@ -62,7 +64,29 @@ func (g *genState) data() string {
 	return fmt.Sprintf("z%d.%d", n, g.r.Intn(200))
 }
 
-func (g *genState) label() string {
+// note keeps the SETTINGS / ACK bookkeeping: an ACK is only sent for an outstanding SETTINGS frame.
+func (g *genState) note(l string) string {
+	y := sideIdx(l[1])
+	switch l[0] {
+	case 'S':
+		g.unacked[y]++
+	case 'A':
+		if g.unacked[1-y] == 0 {
+			return fmt.Sprintf("G%s:1:%s", sides[y], hx.Hex(g.r.Bytes(8)))
+		}
+		g.unacked[1-y]--
+	}
+	return l
+}
+
+func (g *genState) label() string { return g.note(g.label0()) }
+
+func (g *genState) label0() string {
+	if len(g.queue) > 0 && !g.open[sideIdx(g.queue[0][1])] && !(g.lockstep && g.open[1-sideIdx(g.queue[0][1])]) {
+		l := g.queue[0]
+		g.queue = g.queue[1:]
+		return l
+	}
 	y := 0
 	if g.r.Chance(2, 5) {
 		y = 1
@@ -97,6 +121,11 @@ func (g *genState) label() string {
 		}
 		if fid == 6 && (g.noOpenPush || !g.r.Chance(1, 10)) {
 			fid = 9 // known finding C08-K3 (empty fragment): keep it rare
+		}
+		if kind == "U" && fid == 6 {
+			// an empty block carries no in-band table size update; HEADERS with an empty block never
+			// gets through (C08-K3), so empty blocks are simply not generated for PUSH_PROMISE
+			fid = 9
 		}
 		if kind == "U" && !eh {
 			// known finding C08-K2: a continued PUSH_PROMISE stops the relay; keep it rare
@@ -137,6 +166,18 @@ func (g *genState) label() string {
 	case k < th[4]:
 		return hdr("U")
 	case k < th[5]:
+		if g.profile == "c08" && g.r.Chance(2, 5) {
+			// HEADER_TABLE_SIZE (first in the frame), usually acknowledged at once by the peer;
+			// an unacknowledged lowering with header blocks in flight is known finding C08-K4
+			l := fmt.Sprintf("S%s:1=%d", Y, g.pick(0, 0, 64, 100, 4096, 8192, 65536))
+			if g.r.Chance(1, 3) {
+				l += fmt.Sprintf(",4=%d", g.pick(0, 10, 65535))
+			}
+			if g.r.Chance(9, 10) {
+				g.queue = append(g.queue, "A"+sides[1-y])
+			}
+			return l
+		}
 		switch g.r.Intn(8) {
 		case 0:
 			return fmt.Sprintf("S%s:", Y)
@@ -171,7 +212,7 @@ func Gen(r *hx.RNG, profile string, n int, big, lockstep bool) []string {
 	var out []string
 	// frequent opening: the receiver closes its windows first
 	if r.Chance(1, 2) {
-		out = append(out, fmt.Sprintf("S%s:4=%d", sides[r.Intn(2)], g.pick(0, 0, 1, 5, 10, 100)))
+		out = append(out, g.note(fmt.Sprintf("S%s:4=%d", sides[r.Intn(2)], g.pick(0, 0, 1, 5, 10, 100))))
 	}
 	for len(out) < n {
 		out = append(out, g.label())
